@@ -887,7 +887,12 @@ func (e *Env) call(x *ECall) (Val, types.Type) {
 		if ty == nil {
 			return e.fail("unbox: unknown type %s", s.Val)
 		}
-		return Val{T: t.S.unbox(fmt.Sprintf("(ival %s)", v.T), ty)}, ty
+		r := Val{T: t.S.unbox(fmt.Sprintf("(ival %s)", v.T), ty)}
+		if v.IfaceP != nil && v.IfaceT != nil && types.Identical(v.IfaceT, ty) {
+			// the interface holds the address of a location of the caller: *unbox(..) reads / names that location
+			r.P = v.IfaceP
+		}
+		return r, ty
 	}
 	// conversions T(x)
 	if ty := t.eng.resolveType(x.Fun, e.pkg); ty != nil && len(x.Args) == 1 {
@@ -957,7 +962,7 @@ func (e *Env) call(x *ECall) (Val, types.Type) {
 				return e.fail("%s: unknown type %s", x.Fun, prm.Type)
 			}
 			a, at := arg(i)
-			n.vars[prm.Name] = bound{Val{T: e.coerce(a, at, pty)}, pty}
+			n.vars[prm.Name] = bound{Val{T: e.coerce(a, at, pty), IfaceP: a.IfaceP, IfaceT: a.IfaceT}, pty}
 		}
 		v, ty := n.eval(p.Body)
 		return v, ty
